@@ -30,8 +30,8 @@ MCRoles == {[k |-> "Leader", p |-> LeaderFlags], [k |-> "Member", p |-> MemberFl
 MaxSize == CHOOSE m \in Sizes : \A k \in Sizes : k <= m
 PartSeqs(m) == {[i \in 1..m |-> [id |-> i, role |-> f[i].role, st |-> f[i].st]] :
                   f \in {g \in [1..m -> [role : MCRoles, st : InitStatuses]] : Cardinality({i \in 1..m : g[i].st # "Active"}) <= MaxInitIdle}}
-Configs == UNION {{[t |-> t, parts |-> ps, parent |-> 0] : t \in 0..(m + 1), ps \in PartSeqs(m)} : m \in Sizes}
-Blank == [n |-> 0, t |-> 0, act |-> <<>>, pend |-> <<>>, ver |-> 0, audit |-> <<>>, parent |-> 0]
+Configs == UNION {{[t |-> t, parts |-> ps, parent |-> 0, name |-> "g"] : t \in 0..(m + 1), ps \in PartSeqs(m)} : m \in Sizes}
+Blank == [n |-> 0, t |-> 0, act |-> <<>>, pend |-> <<>>, ver |-> 0, audit |-> <<>>, parent |-> 0, name |-> ""]
 
 VARIABLES mode, st, last
 vars == <<mode, st, last>>
@@ -100,7 +100,7 @@ QueriesConsistent ==
      /\ L \cup M \cup O = Elems(ByRole(st, "All")) /\ L \cap M = {} /\ L \cap O = {} /\ M \cap O = {}
      /\ Elems(ActiveIds(st)) \subseteq Elems(ByRole(st, "All"))
      /\ x.pending = Len(st.pend) /\ x.ops = Len(st.audit) /\ x.succ + x.fail <= x.ops
-     /\ Hierarchy(st).t = st.t /\ Hierarchy(st).n = x.total
+     /\ Hierarchy(st).t = st.t /\ Hierarchy(st).n = x.total /\ Hierarchy(st).name = st.name /\ Hierarchy(st).parent = st.parent
 (* the audit log is bounded and keeps the newest entry *)
 AuditBounded == Len(st.audit) <= AuditCap
 AuditKeepsLatest == last.op = "audit" => st.audit # <<>> /\ st.audit[Len(st.audit)] = last.tok
